@@ -40,8 +40,9 @@ THEOREMS = [
          "condition holds for the source states of the steps before column J, where it may be DERIVED from that state's "
          "invariant; every run theorem below is an instance", strength="conditional-on-monitored-side-condition"),
     dict(name="Snow.C06.run_admissible_until_first_nucleation", clause="UNCONDITIONAL (no side condition) up to and "
-         "including the first column that contains ice: all C06 clauses for the columns j <= J when the columns before "
-         "J are ice-free", strength="full"),
+         "including the first column that contains ice: the range, curve, upper- and lower-bound clauses for the columns "
+         "j <= J when the columns before J are ice-free ('ice iff recorded nucleation' is ice_iff_recorded, not part of "
+         "this conclusion)", strength="full"),
     dict(name="Snow.C06.run_bounds_uncoupled", clause="UNCONDITIONAL for the whole run when the vials are thermally "
          "uncoupled (k_int·A = 0): no vial is ever warmed", strength="full"),
     dict(name="Snow.C06.run_bounds_below_liquidus", clause="UNCONDITIONAL for the whole run of a process that starts at "
@@ -51,8 +52,9 @@ THEOREMS = [
          "inequality StaticSide: it suffices that no WARMED ice-containing vial has a contact (neighbour, shelf) above "
          "T_eq_l (ContactsBelow) — the only way the side condition can fail; this is what remains monitored",
          strength="partial"),
-    dict(name="Snow.C06.side_of_contacts_below_liquidus", clause="an ice-containing vial whose contacts are all <= T_eq_l "
-         "satisfies the side condition under dt·Hsum·(T_m − lo) <= m·lambda(1−w_s)", strength="full"),
+    dict(name="Snow.C06.side_of_contacts_below_liquidus", clause="a vial with 0 < sigma < 1 sitting on the curve (T_i = "
+         "curve(sigma) >= lo) whose neighbours and shelf are all within [lo, T_eq_l] satisfies the side condition under "
+         "dt·Hsum·(T_m − lo) <= m·lambda(1−w_s) (inside Stable)", strength="full"),
     dict(name="Snow.C06.allLiquid_monotone", clause="all-liquid phase: with uniform T_k_0 >= shelf start, non-rising shelf "
          "and Stable, in every step whose source column and all earlier columns are ice-free the net heat flow of EVERY "
          "vial is <= 0 and no liquid vial warms (monotone linear step, induction)", strength="full"),
@@ -83,6 +85,13 @@ THEOREMS = [
          "controlled nucleation at step 0, sigma = 1/2, 19/32, 8933/13600): C05.WF, Stable, SideCond at every step and "
          "TrajAdm hold; run_admissible_partial, run_bounds_partial and ice_iff_recorded are each applied to a column "
          "containing ice", strength="nonvacuity"),
+    dict(name="Snow.C06.x_staticSide", clause="StaticSide is inhabited (the run with ice xInp satisfies it)",
+         strength="nonvacuity"),
+    dict(name="Snow.C06.nonvacuous_coupled_step", clause="the MONITORED regime at step level: a coupled two-vial batch inside "
+         "Stable (start above the liquidus) and StaticSide, an admissible state in which an ice-containing vial IS warmed "
+         "by its neighbour (q = 3/32 > 0), ContactsBelow holds, hence SideCond, and step_inv applies (the state is "
+         "constructed, not reached from a uniform start: no run-level witness of a warmed ice vial — the shortest found "
+         "needs 9 steps of exploding rationals)", strength="nonvacuity"),
     dict(name="monitored:finite", clause="all reported values are finite (vacuous over the reals; checked on the floats "
          "of every real run)", strength="monitored"),
     dict(name="monitored:side_condition", clause="AFTER the first column with ice, for thermally coupled vials of a process "
